@@ -24,6 +24,11 @@ pub fn log_take() -> Vec<usize> {
 }
 
 pub fn silence_panics() {
+    if std::env::var("VERIF_PANICS").is_ok() {
+        // debugging aid: say where a caught panic came from
+        std::panic::set_hook(Box::new(|i| { eprintln!("PANIC: {}", i); }));
+        return;
+    }
     std::panic::set_hook(Box::new(|_| {}));
 }
 
